@@ -759,6 +759,18 @@ impl<'a> Gen<'a> {
                 if let Obj::Mut(m) = &s.o { self.claimed.insert(m.as_ptr() as usize); }
             }
         }
+        // forget reservations of regions that no live object shows any more (their address may be reused):
+        // keeps the generator a function of the seed alone
+        if !self.claimed.is_empty() {
+            let mut live: std::collections::HashSet<usize> = Default::default();
+            for m in self.ctx.slots.iter().take(self.nslots) {
+                if let Some(s) = m.lock().unwrap().as_ref() {
+                    for (p, _) in region_ptrs(&s.o) { live.insert(p); }
+                    if let Obj::Mut(mb) = &s.o { live.insert(mb.as_ptr() as usize); }
+                }
+            }
+            self.claimed.retain(|p| live.contains(p));
+        }
         self.ops.push(op);
         fl
     }
